@@ -1,6 +1,7 @@
 import Zlink.Proofs.IdlIfaceRT
 import Zlink.Proofs.JsonStr
 import Zlink.Model.IdlExchange
+import Zlink.Proofs.IdlParsedOK
 /-! # C14 — Rendering an interface description and parsing it back is the identity
 
 Models: `Zlink/Model/IdlRender.lean` (the `Display` impls) and `Zlink/Model/Idl.lean` (the parser).
@@ -79,6 +80,18 @@ theorem C14_exchange (a : Iface) (hok : ifaceOK a = true) (hvi : noVCI a = true)
     (hvc : noVariantComments a = true) : IdlExchange.exchange a = some (.ok a) := by
   unfold IdlExchange.exchange
   rw [decode_encode_reply, Option.map_some, C14_parse_render a hok hvi hvc]
+
+/-- **Descriptions obtained by parsing round-trip** (every accepted text): whatever text the parser
+    accepts, rendering the resulting description and parsing that rendering gives the same description
+    back — e.g. a service that parses an IDL file and serves it through GetInterfaceDescription — provided
+    the result has no commented custom-enum variant (the listed finding) and no variant-less enum (which the
+    parser does not produce; see C13). The well-formedness hypotheses of `C14_parse_render` are *proved*
+    for parser output here, not assumed. -/
+theorem C14_parsed_roundtrip (s : In) (a : Iface) (h : parseInterface s = .ok a) (hne : ifaceNE a = true)
+    (hvc : noVariantComments a = true) :
+    parseInterface (renderIface a) = .ok a ∧ IdlExchange.exchange a = some (.ok a) := by
+  obtain ⟨hok, hvi⟩ := ifaceW_OK a (parseInterface_sound s a h) hne
+  exact ⟨C14_parse_render a hok hvi hvc, C14_exchange a hok hvi hvc⟩
 
 /-- The full statement (kept visible): every well-formed description without commented enum variants
     is recovered from its rendering, and re-rendering reproduces the text. -/
